@@ -149,6 +149,8 @@ func init() {
 		vC02(seed, count, extra)
 	case "c17":
 		vC17(seed, count, extra)
+	case "resolve":
+		vResolve(seed, count)
 	case "transpile-stdin":
 		// one hex-encoded source per line -> "ok <hex go>" | "err <hex msg>"
 		sc := bufio.NewScanner(os.Stdin)
